@@ -75,7 +75,29 @@ class TArr:
             for s in self.shape:
                 n = n * s
             return n
+        if name in ("reshape", "mean", "sum", "min", "max", "ravel", "flatten", "squeeze", "transpose"):
+            # pure derived value in a fresh buffer (reshape of a contiguous array is a view: same buffer)
+            def derived(*a, **k):
+                shp = None
+                if name == "reshape":
+                    shp = tuple(a[0]) if len(a) == 1 and isinstance(a[0], (tuple, list)) else tuple(a)
+                return TArr((name, self.nf(), _tok(a), _tok(tuple(sorted(k.items())))), shape=shp,
+                            buf=self.buf if name in ("reshape", "ravel", "squeeze", "transpose") else None, dtype=self.dtype)
+            return derived
+        if name == "ctypes":
+            from .pyinterp import Namespace
+            return Namespace("ctypes", data=self.buf)
         raise Unsupported(f"ndarray.{name}")
+
+    def sym_iop(self, interp, op, other):
+        """in-place arithmetic: the buffer's value changes (all aliases that are this object see it)"""
+        self.base = ("iop", op, self.base, _tok(other))
+        self.mutations.append(op)
+        return self
+
+    def sym_setitem(self, interp, k, v):
+        self.base = ("setitem", self.base, _tok(k), _tok(v))
+        self.mutations.append("setitem")
 
     def sym_getitem(self, interp, k):
         view = True
@@ -96,6 +118,8 @@ class TArr:
                     if shape is not None:
                         shape[axis] = None
                 axis += 1
+            elif x is Ellipsis:
+                continue
             elif x is None:
                 toks.append(("new",))
                 if shape is not None:
@@ -170,6 +194,12 @@ def _tok(x):
         return ("arr", x.nf())
     if hasattr(x, "token"):
         return x.token
+    if isinstance(x, (tuple, list)):
+        return tuple(_tok(y) for y in x)
+    if isinstance(x, slice):
+        return ("slice", _tok(x.start), _tok(x.stop), _tok(x.step))
+    if x is Ellipsis:
+        return "..."
     return ("obj", type(x).__name__)
 
 
